@@ -78,6 +78,37 @@ class FileSet:
         self.md, self.raw, self.cplx = md, raw, cplx      # cplx: raw samples are complex numbers
         self._reader = None
         self._whole = None
+        self.memory = False        # pure-Python BaseReader subclass, no baseband underneath
+        self.assigned = None       # (rate factor, start shift in s): metadata assigned through the public setters
+
+    def by_assignment(self, factor=3, shift=7):
+        """The same files behind a reader whose derived attributes were all read once and whose
+        sample_rate / start_time were then ASSIGNED new valid values: everything the reader reports
+        afterwards is judged against the new metadata (state cached across assignments shows here)."""
+        import copy
+        c = copy.copy(self)
+        c.key = self.key + "@assigned"
+        c._reader = None
+        c.assigned = (factor, shift)
+        base = self._make
+        n_made = [0]
+
+        def make():
+            rd = base()
+            for at in ("dt", "time_length", "stop_time", "sample_rate", "start_time"):
+                getattr(rd, at)
+            rd.time_at(1)
+            rd.time_at(1, unit=u.s)
+            rd.contains(rd.start_time)
+            rd.offset_at(rd.stop_time)
+            rd.read(0, 1)
+            n_made[0] += 1
+            steps = [("sample_rate", rd.sample_rate * factor), ("start_time", rd.start_time + shift * u.s)]
+            for name, val in (steps if n_made[0] % 2 else steps[::-1]):
+                setattr(rd, name, val)
+            return rd
+        c._make = make
+        return c
 
     @property
     def rawlen(self):
@@ -107,6 +138,10 @@ class FileSet:
 
     def direct(self, pos, cnt):
         """what the underlying stream reader delivers, shape (cnt, A, B)"""
+        if self.memory:
+            if pos < 0 or cnt < 0 or pos + cnt > self.rawlen:
+                raise EOFError("outside the array")
+            return self.raw[pos:pos + cnt]
         with self.open() as fh:
             fh.seek(pos)
             z = fh.read(cnt)
@@ -153,6 +188,21 @@ class FileSet:
         out = np.asarray(out)
         sgn = np.where(np.arange(out.shape[0]) % 2 == 0, 1.0, -1.0).reshape((-1,) + (1,) * (out.ndim - 1))
         return self.value_codes(out.real * sgn)
+
+
+class MemoryReader(pbr.BaseReader):
+    """A reader that is not backed by baseband: BaseReader's own read / Dask / time logic over an array."""
+
+    def __init__(self, data, sample_rate, start_time):
+        self._data = data
+        super().__init__(shape=data.shape, dtype=data.dtype, signal_type=pb.Signal, sample_rate=sample_rate,
+                         start_time=start_time)
+
+    def _read_array(self, offset, n, /, **kwargs):
+        return self._data[offset:offset + n].copy()
+
+
+LEAP_START = Time("2016-12-31T23:59:50", format="isot", precision=9)     # 23:59:60 exists ten seconds later
 
 
 def _ramp_k(L, A, B):
@@ -212,6 +262,22 @@ def write_all(d):
     fs["dada"] = FileSet("dada", "plain", False, False, 16, 1, 4, 2, 1, "int8", "ramp", names,
                          {"format": "dada", "squeeze": False},
                          lambda names=names: pbr.BasebandReader(names, format="dada", squeeze=False), raw=data)
+    # the same layout starting ten seconds before a leap second, 4 samples per second: offsets 40..43 lie in 23:59:60
+    data = _ramp("int8", 64, 2, 1, True)
+    hdr = dada.DADAHeader.fromvalues(time=LEAP_START, offset=0 * u.s, npol=2, nchan=1, bps=8, complex_data=True,
+                                     sample_rate=4 * u.Hz, samples_per_frame=16, sideband=True)
+    hdr["FREQ"] = 1400.0
+    with dada.open(os.path.join(d, "lp_{frame_nr:02d}.dada"), "ws", header0=hdr, squeeze=False) as fw:
+        fw.write(data)
+    names = sorted(glob.glob(os.path.join(d, "lp_*.dada")))
+    fs["dadaleap"] = FileSet("dadaleap", "plain", False, False, 16, 1, 4, 2, 1, "int8", "ramp", names,
+                             {"format": "dada", "squeeze": False},
+                             lambda names=names: pbr.BasebandReader(names, format="dada", squeeze=False), raw=data)
+    # no files at all: a pure-Python BaseReader subclass over the same ramp
+    data = _ramp("int8", 64, 2, 1, True)
+    fs["memory"] = FileSet("memory", "plain", False, False, 16, 1, 4, 2, 1, "int8", "ramp", None, {},
+                           lambda data=data: MemoryReader(data, 2 * u.kHz, T0), raw=data)
+    fs["memory"].memory = True
     # GUPPI raw, 3 files x 2 frames x 16 samples, (npol, nchan) = (2, 4); upper and lower sideband
     for key, usb, pol in (("guppi", True, "LIN"), ("guppil", False, "CIRC")):
         data = _ramp("int8", 96, 2, 4, True)
@@ -239,6 +305,10 @@ def write_all(d):
         fs[key] = FileSet(key, "stokes", False, not usb, spf, 1, nf, 4, 4, "int8", "ramp", names,
                           {"format": "dada", "squeeze": False},
                           lambda names=names: pbr.DADAStokesReader(names), raw=data, md=256, cplx=False)
+    # readers whose metadata was assigned after construction
+    for k in ("vdifr", "guppil", "stokesl", "memory", "dadaleap"):
+        v = fs[k].by_assignment(3 if k != "dadaleap" else 2, 7 if k != "dadaleap" else 3)
+        fs[v.key] = v
     return fs
 
 
@@ -261,6 +331,8 @@ def sample_files():
     st = os.path.join(DATA, "stokes_ef.dada")
     fs["s_stokes"] = FileSet("s_stokes", "stokes", False, True, 16, 1, 1, 4, 2048, "int8", "direct", st,
                              {"format": "dada", "squeeze": False}, lambda: pbr.DADAStokesReader(st), cplx=False)
+    asg = fs["s_dada"].by_assignment(5, 11)
+    fs[asg.key] = asg
     return fs
 
 
@@ -439,7 +511,10 @@ def days(t):
 
 
 def seconds_between(t, t0):
-    return (days(t) - days(t0)) * 86400
+    """elapsed SI seconds t - t0 as astropy defines them (scale conversions, leap seconds), exactly
+    as held by the TimeDelta (two doubles)"""
+    td = t - t0
+    return (Fraction(float(td.jd1)) + Fraction(float(td.jd2))) * 86400
 
 
 def hz(q):
